@@ -42,6 +42,8 @@ def classify(rec):
     if (kinds & FLOAT_KINDS and rec.get("symptom") in ("unexpected-error", "path-dependent")
             and "float64" in text):
         return "integral-float-path-dependent"
+    if "indnl" in kinds and rec.get("symptom") in ("shape", "path-dependent"):
+        return "guard-passes-lossy-indented-block-scalar"
     if kinds & ML_KINDS and (rec.get("symptom") in ("unparsable", "shape")
                              or (rec.get("symptom") == "path-dependent" and "parsing config file" in text)):
         return "unreadable-block-scalar"
